@@ -86,6 +86,8 @@ type EapAkaPrime struct {
 	subType    EapAkaSubtype
 	reserved   uint16
 	attributes map[EapAkaPrimeAttrType]*EapAkaPrimeAttr
+	// Order in which the attributes of a received packet appeared on the wire
+	wireOrder []EapAkaPrimeAttrType
 }
 
 func NewEapAkaPrime(subType EapAkaSubtype) *EapAkaPrime {
@@ -372,6 +374,9 @@ func (eapAkaPrime *EapAkaPrime) Unmarshal(rawData []byte) error {
 		}
 
 		// Set attribute
+		if _, ok := eapAkaPrime.attributes[attr.attrType]; !ok {
+			eapAkaPrime.wireOrder = append(eapAkaPrime.wireOrder, attr.attrType)
+		}
 		eapAkaPrime.attributes[attr.attrType] = attr
 	}
 
@@ -398,15 +403,29 @@ func (eapAkaPrime *EapAkaPrime) initMAC() error {
 func (eapAkaPrime *EapAkaPrime) getAttrsKeys() []EapAkaPrimeAttrType {
 	result := make([]EapAkaPrimeAttrType, 0, len(eapAkaPrime.attributes))
 
-	for key := range eapAkaPrime.attributes {
-		result = append(result, key)
+	// Attributes of a received packet keep the order they were sent in, because
+	// AT_MAC is calculated over the packet as it appeared on the wire
+	inWireOrder := make(map[EapAkaPrimeAttrType]bool, len(eapAkaPrime.wireOrder))
+	for _, key := range eapAkaPrime.wireOrder {
+		if _, ok := eapAkaPrime.attributes[key]; ok && !inWireOrder[key] {
+			result = append(result, key)
+			inWireOrder[key] = true
+		}
 	}
 
-	sort.Slice(result, func(i, j int) bool {
-		return uint8(result[i]) < uint8(result[j])
+	// All other attributes follow in ascending type order
+	sorted := make([]EapAkaPrimeAttrType, 0, len(eapAkaPrime.attributes))
+	for key := range eapAkaPrime.attributes {
+		if !inWireOrder[key] {
+			sorted = append(sorted, key)
+		}
+	}
+
+	sort.Slice(sorted, func(i, j int) bool {
+		return uint8(sorted[i]) < uint8(sorted[j])
 	})
 
-	return result
+	return append(result, sorted...)
 }
 
 // Len(EapAkaPrimeAttr) = EapAkaPrimeAttr.length * 4
